@@ -3,6 +3,7 @@ use core::ops::{Deref, DerefMut};
 /// Toggle is similar to Option, except that even in the Off/"None" case, there is still
 /// an owned allocated inner object. This is useful for holding onto pre-allocated objects
 /// that can be toggled as enabled.
+#[derive(Clone, Copy)]
 pub struct Toggle<T> {
     inner: T,
     on:    bool,
@@ -19,6 +20,10 @@ impl<T> Toggle<T> {
 
     pub fn enable(&mut self) {
         self.on = true;
+    }
+
+    pub fn disable(&mut self) {
+        self.on = false;
     }
 
     pub fn is_on(&self) -> bool {
